@@ -193,7 +193,10 @@ def gen_case(r, tier):
         elif k < 0.76:
             ev.append(["delP", r.randrange(n)])
         elif k < 0.86:
-            ev.append(["xd", r.randrange(n), r.randrange(n)])
+            # a datagram that crosses the domain / tag boundary when the scenario has one
+            pairs = [(q, p) for q in range(n) for p in range(n) if q != p and parts[q][:2] != parts[p][:2]]
+            q, p = r.choice(pairs) if pairs and r.random() < 0.8 else (r.randrange(n), r.randrange(n))
+            ev.append(["xd", q, p])
             ev.append(["obs"])
         elif k < 0.90:
             ev.append(["topic", r.randrange(n)])
